@@ -243,6 +243,9 @@ pub struct C14Case {
 	pub entries: Vec<EntrySpec>,
 	pub hosts: Vec<HostSpec>,
 	pub uri: HostSpec,
+	/// the allow-list is handed over as `SocketAddr` values (only when every entry is an IP literal with a numeric port)
+	#[serde(default)]
+	pub as_socket_addr: bool,
 }
 
 fn arb_label() -> BoxedStrategy<String> {
@@ -388,17 +391,29 @@ impl SubCheck for Filter {
 		tier.pick(1_000_000, 20_000_000)
 	}
 	fn strategy(&self, _tier: Tier) -> BoxedStrategy<C14Case> {
-		proptest::collection::vec(arb_entry(), 0..5)
-			.prop_flat_map(|entries| {
+		let ip_entry = (any::<bool>(), prop_oneof![Just(1u8), Just(2u8), Just(3u8), Just(4u8), Just(6u8), Just(7u8), Just(8u8)])
+			.prop_map(|(v6, port)| EntrySpec { labels: if v6 { vec!["[::1]".into()] } else { vec!["127".into(), "0".into(), "0".into(), "1".into()] }, port, scheme: 0 });
+		prop_oneof![
+			6 => (proptest::collection::vec(arb_entry(), 0..5), Just(false)),
+			1 => (proptest::collection::vec(ip_entry, 1..3), Just(true)),
+		]
+			.prop_flat_map(|(entries, as_socket_addr)| {
 				let n = entries.len();
-				(Just(entries), prop_oneof![8 => proptest::collection::vec(arb_host(n), 1..2), 1 => proptest::collection::vec(arb_host(n), 2..3), 1 => Just(vec![])], prop_oneof![3 => Just(HostSpec::Absent), 2 => arb_host(n)])
+				(Just(entries), Just(as_socket_addr), prop_oneof![8 => proptest::collection::vec(arb_host(n), 1..2), 1 => proptest::collection::vec(arb_host(n), 2..3), 1 => Just(vec![])], prop_oneof![3 => Just(HostSpec::Absent), 2 => arb_host(n)])
 			})
-			.prop_map(|(entries, hosts, uri)| C14Case { entries, hosts, uri })
+			.prop_map(|(entries, as_socket_addr, hosts, uri)| C14Case { entries, hosts, uri, as_socket_addr })
 			.boxed()
 	}
 	fn run(&self, case: &C14Case, obs: &mut Obs) {
 		let texts: Vec<String> = case.entries.iter().map(entry_text).collect();
-		let layer = match HostFilterLayer::new(texts.clone()) {
+		let addrs: Option<Vec<std::net::SocketAddr>> = if case.as_socket_addr { texts.iter().map(|t| t.parse().ok()).collect() } else { None };
+		if addrs.is_some() {
+			obs.class("allow-list-given-as-socket-addresses");
+		}
+		let layer = match match addrs {
+			Some(a) => HostFilterLayer::new(a),
+			None => HostFilterLayer::new(texts.clone()),
+		} {
 			Ok(l) => l,
 			Err(_) => {
 				obs.class("allow-list-rejected-by-constructor");
